@@ -458,14 +458,23 @@ class PSBaseParser:
         elif c in ESC_STRING:
             self._curtoken += bytes((ESC_STRING[c],))
 
-        elif c == b"\r" and len(s) > i + 1 and s[i + 1 : i + 2] == b"\n":
+        elif c == b"\r":
             # If current and next character is \r\n skip both because enters
-            # after a \ are ignored
-            i += 1
+            # after a \ are ignored. The \n may only arrive with the next
+            # buffer, so look for it in a state of its own.
+            self._parse1 = self._parse_string_2
+            return i + 1
 
         # default action
         self._parse1 = self._parse_string
         return i + 1
+
+    def _parse_string_2(self, s: bytes, i: int) -> int:
+        """Skip the \n of a \r\n pair that follows a backslash."""
+        self._parse1 = self._parse_string
+        if s[i : i + 1] == b"\n":
+            return i + 1
+        return i
 
     def _parse_wopen(self, s: bytes, i: int) -> int:
         c = s[i : i + 1]
